@@ -743,6 +743,15 @@ def ops_for(rng, m, out, p=0.7):
 def gen_main(rng, tier):
     n = 1200 if tier == 'quick' else 6000
     ops = []
+    # finite entries whose squares / sums overflow (>= ~1e154): the small-sub-diagonal search of ref_matrix_diag_m then
+    # sees NaN differences and falls through; since the repair in /repo it returns REF_FAILURE there (before: an
+    # out-of-bounds store e[3], UBSan abort).  The model must agree op for op; a sanitizer abort is a violation.
+    for _ in range(12 if tier == 'quick' else 60):
+        mag = 10.0 ** rng.uniform(150.0, 308.0)
+        base = spd(rng, -1, 1, 2)
+        m = [x * mag if rng.random() < 0.7 else x for x in base]
+        m = [x if x == x and abs(x) != float('inf') else 1.0e308 for x in m]
+        ops.append(line('diag_m', *m))
     for _ in range(n):
         k = rng.random()
         if k < 0.62:
